@@ -64,6 +64,7 @@ def _lit(node):
 
 
 _STATS = {'queries': 0, 'solver_s': 0.0}
+_XCHECK = {'on': False, 'agree': 0, 'disagree': [], 'unavailable': 0}
 
 
 def _install_z3_counter():
@@ -75,13 +76,44 @@ def _install_z3_counter():
     def chk(self, *a):
         # perf_counter: CrossHair models time.time()/monotonic()/process_time() as symbolic values, perf_counter is left alone
         t = time.perf_counter()
+        res = None
         try:
-            return orig(self, *a)
+            res = orig(self, *a)
+            return res
         finally:
             _STATS['queries'] += 1
             _STATS['solver_s'] += time.perf_counter() - t
+            if _XCHECK['on'] and res is not None and str(res) == 'unsat' and not a:
+                _cross_check(self)
     z3.Solver.check = chk
     z3.Solver._vf_wrapped = True
+
+
+def _cross_check(solver):
+    """thorough tier: every `unsat` of an E2 lemma is re-checked with cvc5 (binary) on the SMT-LIB2 rendering of the same assertions"""
+    import subprocess
+    import tempfile
+    try:
+        text = solver.to_smt2()
+        if 'char.from_bv' in text or '(_ Char' in text:
+            _XCHECK['unavailable'] += 1        # z3-specific character operations: not portable
+            return
+        with tempfile.NamedTemporaryFile('w', suffix='.smt2', delete=False) as fh:
+            fh.write('(set-logic ALL)\n' + text)
+            path = fh.name
+        try:
+            out = subprocess.run(['cvc5', '--strings-exp', '--tlimit=30000', path], capture_output=True, text=True, timeout=45)
+            ans = (out.stdout.strip().splitlines() or [''])[0]
+        finally:
+            os.unlink(path)
+        if ans == 'unsat':
+            _XCHECK['agree'] += 1
+        elif ans == 'sat':
+            _XCHECK['disagree'].append(text[:300])
+        else:
+            _XCHECK['unavailable'] += 1
+    except Exception:  # pylint: disable=broad-exception-caught
+        _XCHECK['unavailable'] += 1
 
 
 def run_ch(task):
@@ -129,6 +161,7 @@ def run_fn(task):
     fn = getattr(mod, task['fn'])
     q0, s0 = _STATS['queries'], _STATS['solver_s']
     t0 = time.time()
+    _XCHECK.update(on=(task['kind'] == 'lemma' and bool(task.get('cross_check'))), agree=0, disagree=[], unavailable=0)
     try:
         out = fn(**task.get('kwargs', {}))
     except Exception as exc:  # pylint: disable=broad-exception-caught
@@ -138,9 +171,15 @@ def run_fn(task):
         # a lemma is generated from named objects of the live tree; when they are gone the lemma is skipped (structure changed),
         # the public-API harnesses of the same property still run
         out = {'state': 'skipped', 'why': f'structure changed: {type(exc).__name__}: {exc}'}
+    _XCHECK['on'] = False
     res = {'id': task['id'], 'kind': task['kind'], 'wall_s': round(time.time() - t0, 3),
            'queries': _STATS['queries'] - q0, 'solver_s': round(_STATS['solver_s'] - s0, 3)}
     res.update(out)
+    if task.get('cross_check'):
+        res['cvc5'] = {'agree': _XCHECK['agree'], 'disagree': len(_XCHECK['disagree']), 'unavailable': _XCHECK['unavailable']}
+        if _XCHECK['disagree'] and res.get('state') == 'unsat':
+            res['state'] = 'inconclusive'
+            res['why'] = 'cvc5 answers sat where z3 answered unsat: ' + _XCHECK['disagree'][0]
     return res
 
 
